@@ -515,6 +515,25 @@ func drcCases(b *baseCase, mk func() map[string]string, class, mut string, emit 
 	})
 }
 
+var keywordRe = regexp.MustCompile(`^[a-z][a-z-]*$`)
+
+// lineShape: the words of a line, everything that is not a plain lower-case keyword blanked; at most six words.
+func lineShape(w []string) string {
+	var out []string
+	for i, x := range w {
+		if i == 6 {
+			out = append(out, "…")
+			break
+		}
+		if keywordRe.MatchString(x) {
+			out = append(out, x)
+		} else {
+			out = append(out, "#")
+		}
+	}
+	return strings.Join(out, " ")
+}
+
 // remarkFirst puts a remark line in front of the first line of every ACL (ASA: `access-list NAME remark …`
 // before the first `access-list NAME …`; IOS: ` remark …` as first sub command of `ip access-list extended NAME`).
 func remarkFirst(typ, text string) string {
@@ -637,6 +656,29 @@ func enumerate(bases []baseCase, emit emitFn) {
 				nxt := ""
 				if li+1 < len(lines) {
 					nxt = lines[li+1]
+				}
+				// systematic word-boundary truncation: every (line kind, k) pair once, always run (class trunc-kind);
+				// line kind = device type, file kind, indentation, and the words of the line with everything
+				// that is not a plain keyword (names, numbers, addresses, parenthesised words) blanked
+				if b.typ == "ASA" || b.typ == "IOS" || b.typ == "Linux" {
+					ind, w := splitIndent(line)
+					shape := lineShape(w)
+					for k := 1; k < len(w); k++ {
+						kk := fmt.Sprintf("K|%s|%s|%d|%s|%d", b.typ, path.Ext(name), len(ind), shape, k)
+						if seenLine[hash64(kk)] {
+							continue
+						}
+						seenLine[hash64(kk)] = true
+						k, li, name := k, li, name
+						text := ind + strings.Join(w[:k], " ")
+						drcCases(b, func() map[string]string {
+							nl := append([]string{}, lines...)
+							nl[li] = text
+							f := cloneFiles(b.files)
+							f[name] = strings.Join(nl, "\n")
+							return f
+						}, "trunc-kind", fmt.Sprintf("%s:%d cut behind word %d of kind %q", name, li+1, k, shape), emit)
+					}
 				}
 				key := b.typ + "|" + path.Ext(name) + "|" + ctx + "|" + line + "|" + nxt
 				if len(lines) > 300 {
